@@ -61,6 +61,13 @@ def main(argv=None):
         return rep.finish()
     except (AnalysisError, Budget) as e:
         print("ANALYSIS-ERROR property=%s %s" % (prop, e))
+        try:
+            # a violation established before the analyser gave up is still a violation
+            if any(r["violations"] for r in rep.rules.values()):
+                rc = rep.finish(partial=True)
+                return 1 if rc == 1 else 2
+        except Exception:
+            pass
         return 2
     except Exception:
         traceback.print_exc()
